@@ -92,8 +92,35 @@ macro_rules! payload_cells {
     };
 }
 
+/// library types that are neither objects, groups nor smart pointers (outside C09): the wrapper next to the std type
+/// it is a view of / built from.  Reported as information.
+macro_rules! view {
+    ($out:ident, $i:expr, $p:expr, $t:ty, $std:ty) => {
+        $out.push(serde_json::json!({"w": "view", "i": $i, "p": $p, "exists": true,
+            "base": {"Send": <PS<$t>>::SEND, "Sync": <PS<$t>>::SYNC},
+            "std": {"Send": <PS<$std>>::SEND, "Sync": <PS<$std>>::SYNC},
+            "conv": false, "opaque": {"Send": false, "Sync": false}}));
+    };
+}
+macro_rules! view_cells {
+    ($out:ident, $p:expr, $P:ty) => {
+        view!($out, "csliceref", $p, cglue::slice::CSliceRef<'static, $P>, &'static [$P]);
+        view!($out, "cslicemut", $p, cglue::slice::CSliceMut<'static, $P>, &'static mut [$P]);
+        view!($out, "cvec", $p, cglue::vec::CVec<$P>, Vec<$P>);
+        view!($out, "coption", $p, cglue::option::COption<$P>, Option<$P>);
+        view!($out, "cresult", $p, cglue::result::CResult<$P, u8>, Result<$P, u8>);
+        view!($out, "ctup2", $p, cglue::tuple::CTup2<$P, u8>, ($P, u8));
+        view!($out, "callback", $p, cglue::callback::OpaqueCallback<'static, $P>, &'static mut (dyn FnMut($P) -> bool + Send));
+        view!($out, "citerator", $p, cglue::iter::CIterator<'static, $P>, &'static mut (dyn Iterator<Item = $P> + Send));
+    };
+}
+
 fn main() {
     let mut out: Vec<serde_json::Value> = vec![];
+    view_cells!(out, "SendSync", SS);
+    view_cells!(out, "SendOnly", SO);
+    view_cells!(out, "SyncOnly", YO);
+    view_cells!(out, "Neither", NN);
     payload_cells!(out, "SendSync", SS);
     payload_cells!(out, "SendOnly", SO);
     payload_cells!(out, "SyncOnly", YO);
